@@ -152,7 +152,7 @@ impl<C: Cfg> World<C> {
                 self.do_get(v, idx, view, tr);
             }
             OP_ITER => {
-                let kind = ch.pick(8);
+                let kind = ch.pick(10);
                 let extra = self.spec.extra_calls;
                 let mut calls: Vec<bool> = Vec::new();
                 if hist || self.spec.mon & MON_ITER == 0 {
